@@ -195,10 +195,11 @@ def clause_d(ctx, P):
 def clause_e(ctx, P):
     c05.clause_d(ctx, P)      # TTL 0 -> 1 and expiry timers (shared)
     f = P.one("DnsCache::add_or_update")
-    # the flush closure
+    # the flush pass: a `for_each` closure or a plain loop in the function itself — whichever holds the set_expire call
     found = False
-    for c in P.closures_of.get(f.name, []):
-        cf = P.fns[c]
+    sites_in_f = []
+    ftr = tracer(P, f)
+    for cf in [f] + [P.fns[c] for c in P.closures_of.get(f.name, [])]:
         se = [(b, t) for b, t in cf.calls() if name_matches(cname(t), "DnsRecordExt::set_expire")]
         if not se:
             continue
@@ -208,39 +209,36 @@ def clause_e(ctx, P):
         v = ctr.operand(t["args"][1], endpos(cf, b))
         okv = any(a[0] == "binop" and a[1].startswith("Add") and fold(a[3]) == 1000 for a in strip(v))
         ctx.ob("C03e.F12.flush-expire-in-1s", cf.name, okv, cf.loc(b), "flushed records get expire := now + 1000 (%s)" % show(v)[:60])
-        conds = {"class": False, "type": False, "age": False, "remaining": False, "intf": False}
-        for bb in cf.live_blocks():
-            for (tgt, atom, outcome) in switch_edges(P, cf, bb):
-                if outcome is not True:
-                    continue
-                s_ = show(atom)
-                if atom[0] == "binop" and atom[1] == "Eq" and has_call(atom, "DnsRecordExt::get_class"):
-                    conds["class"] = True
-                if atom[0] == "call" and name_matches(strip_generics(atom[1]), "PartialEq::eq") and has_call(atom, "DnsRecordExt::get_type") and not conds["type"]:
-                    conds["type"] = True
-                if atom[0] == "binop" and atom[1] == "Gt" and has_call(atom[3], "DnsRecordExt::get_created") and poly(atom[3]) is not None and poly(atom[3]).get(()) == 1000:
-                    conds["age"] = True
-                if atom[0] == "binop" and atom[1] == "Gt" and has_call(atom[2], "DnsRecordExt::get_expire") and poly(atom[3]) is not None and poly(atom[3]).get(()) == 1000:
-                    conds["remaining"] = True
-        for bb, i, s in cf.assigns():
-            r = s["r"]
-            if r["k"] == "binop" and r["op"] == "Eq":
+        preds = {
+            "class": lambda atom, o, bb: o is True and atom[0] == "binop" and atom[1] == "Eq" and has_call(atom, "DnsRecordExt::get_class"),
+            "type": lambda atom, o, bb: o is True and atom[0] == "call" and name_matches(strip_generics(atom[1]), "PartialEq::eq") and has_call(atom, "DnsRecordExt::get_type"),
+            "age": lambda atom, o, bb: o is True and atom[0] == "binop" and atom[1] == "Gt" and has_call(atom[3], "DnsRecordExt::get_created") and poly(atom[3]) is not None and poly(atom[3]).get(()) == 1000,
+            "remaining": lambda atom, o, bb: o is True and atom[0] == "binop" and atom[1] == "Gt" and has_call(atom[2], "DnsRecordExt::get_expire") and poly(atom[3]) is not None and poly(atom[3]).get(()) == 1000,
+        }
+        edges = {k: guard_edges(P, cf, pr) for k, pr in preds.items()}
+        conds = {k: bool(v_) for k, v_ in edges.items()}
+        conds["intf"] = False
+        for bb, i, s_ in cf.assigns():
+            r = s_["r"]
+            if r["k"] == "binop" and r["op"] in ("Eq", "Ne"):
                 e = ctr.rvalue(r, (bb, i))
                 if sum(1 for x in walk(e) if x[0] == "field" and x[2] == "index") >= 2 and sum(1 for x in walk(e) if x[0] == "field" and x[2] == "interface_id") >= 2:
                     conds["intf"] = True
         ctx.ob("C03e.F12.flush-predicate", cf.name, all(conds.values()), cf.loc(),
                "flush iff same class ∧ same type ∧ now > created + 1000 ∧ expire > now + 1000 (∧ same interface for addresses): %s" % conds)
-        # the set_expire is guarded by the flag computed from those tests
-        e_cls = guard_edges(P, cf, lambda atom, outcome, bb: outcome is True and atom[0] == "binop" and atom[1] == "Eq" and has_call(atom, "DnsRecordExt::get_class"))
-        e_age = guard_edges(P, cf, lambda atom, outcome, bb: outcome is True and atom[0] == "binop" and atom[1] == "Gt" and has_call(atom[3], "DnsRecordExt::get_created"))
-        e_rem = guard_edges(P, cf, lambda atom, outcome, bb: outcome is True and atom[0] == "binop" and atom[1] == "Gt" and has_call(atom[2], "DnsRecordExt::get_expire"))
-        okg = all(guarded(P, cf, b, e) for e in (e_cls, e_age, e_rem))
+        # the set_expire is guarded by those tests (directly or through the flag computed from them)
+        okg = all(guarded(P, cf, b, edges[k]) for k in ("class", "age", "remaining"))
         ctx.ob("C03e.flush-guarded", cf.name, okg, cf.loc(b), "set_expire happens only when every flush condition held")
-    ctx.require(found, "C03e.anchor", f.name, f.loc(), "flush closure found")
+        if cf is f:
+            sites_in_f.append(b)
+        else:
+            for fb, ft in f.calls():
+                if any(x[0] == "closure" and x[1] == cf.name for a_ in ft["args"] for x in walk(ftr.operand(a_, endpos(f, fb)))):
+                    sites_in_f.append(fb)
+    ctx.require(found, "C03e.anchor", f.name, f.loc(), "flush pass (a set_expire call in add_or_update or one of its closures) found")
     # flush only for cache-flush records
     e_cf = guard_edges(P, f, lambda atom, outcome, bb: atom[0] == "call" and name_matches(strip_generics(atom[1]), "DnsRecordExt::get_cache_flush") and outcome is True)
-    fe = [b for b, t in f.calls() if name_matches(cname(t), "Iterator::for_each")]
-    ctx.ob("C03e.flush-only-on-cache-flush-bit", f.name, bool(fe) and all(must_pass_edges(f, b, e_cf) for b in fe), f.loc(), "the flush pass runs only for an incoming record with the cache-flush bit")
+    ctx.ob("C03e.flush-only-on-cache-flush-bit", f.name, bool(sites_in_f) and all(must_pass_edges(f, b, e_cf) for b in sites_in_f), f.loc(), "the flush pass runs only for an incoming record with the cache-flush bit")
 
 
 def clause_live_predicates(ctx, P):
